@@ -26,6 +26,9 @@ import (
 //	pkg/importer/openapi3_legacy.go  loadTypeSchema: body of `range schema.Properties`     -> required_rule
 //	pkg/importer/openapi.go  mapOpenAPITypeAndFormatToType: the conversions literal with constants
 //	                         resolved                                                      -> oas_type_table
+//	openapi3_legacy.go       buildField: all statements                                    -> build_field_shape
+//	                         loadTypeSchema: array arm; allOf loop + properties loop       -> load_array_shape, object_loops_shape
+//	utils.go / types.go      getSyslTypeName; TypeList.Add + contains                      -> sysl_type_name_shape, type_list_add_shape
 //	pkg/utils/*.go           Contains: statements                                          -> contains_shape
 //	pkg/parse/utils.go       MustUnescape: statements                                      -> must_unescape_shape
 //	pkg/syslutil/typeutil.go BuiltInTypes with the values of its elements                  -> builtin_types
@@ -1112,6 +1115,56 @@ func foreignTables(repo string) (string, error) {
 		}
 	}
 
+	// ---- nested schemas (Foreign/NestedSpec.v): buildField as a whole, the array arm and the allOf / properties
+	// loops of loadTypeSchema, getSyslTypeName, TypeList.Add / contains
+	var buildFieldShape, loadArrayShape, objectLoopsShape, syslTypeNameShape, typeListAddShape []string
+	if lg, err := parseGo(repo, "pkg/importer/openapi3_legacy.go"); err == nil {
+		if fd := ftFunc(lg, "OpenAPI3Importer", "buildField"); fd == nil {
+			unk("buildField not found")
+		} else {
+			buildFieldShape = ftStmts(lg, fd.Body.List)
+		}
+		if fd := ftFunc(lg, "OpenAPI3Importer", "loadTypeSchema"); fd != nil {
+			ast.Inspect(fd.Body, func(x ast.Node) bool {
+				cc, ok := x.(*ast.CaseClause)
+				if !ok {
+					return true
+				}
+				if len(cc.List) == 1 && ftSrc(lg.fset, cc.List[0]) == "schema.Type.Is(openapi3.TypeArray)" && loadArrayShape == nil {
+					loadArrayShape = ftStmts(lg, cc.Body)
+				}
+				for _, st := range cc.Body {
+					if rs, ok := st.(*ast.RangeStmt); ok {
+						if x := ftSrc(lg.fset, rs.X); x == "schema.AllOf" || x == "schema.Properties" {
+							objectLoopsShape = append(objectLoopsShape, ftSrc(lg.fset, st))
+						}
+					}
+				}
+				return true
+			})
+			if loadArrayShape == nil || len(objectLoopsShape) != 2 {
+				unk("loadTypeSchema: array arm / allOf and properties loops not found as expected")
+			}
+		}
+	}
+	if ut2, err := parseGo(repo, "pkg/importer/utils.go"); err == nil {
+		if fd := ftFunc(ut2, "", "getSyslTypeName"); fd == nil {
+			unk("getSyslTypeName not found")
+		} else {
+			syslTypeNameShape = ftStmts(ut2, fd.Body.List)
+		}
+	}
+	if ty2, err := parseGo(repo, "pkg/importer/types.go"); err == nil {
+		for _, n := range []string{"Add", "contains"} {
+			if fd := ftFunc(ty2, "TypeList", n); fd == nil {
+				unk("TypeList.%s not found", n)
+			} else {
+				typeListAddShape = append(typeListAddShape, "func "+n)
+				typeListAddShape = append(typeListAddShape, ftStmts(ty2, fd.Body.List)...)
+			}
+		}
+	}
+
 	var o strings.Builder
 	o.WriteString("(* GENERATED by /verif/translate (ForeignTables) from pkg/importer, pkg/utils, pkg/parse/utils.go,\n   pkg/syslutil/typeutil.go and pkg/grammar/SyslLexer.g4 - do not edit *)\n")
 	o.WriteString("From Coq Require Import String List.\nImport ListNotations.\nLocal Open Scope string_scope.\n\n")
@@ -1133,6 +1186,11 @@ func foreignTables(repo string) (string, error) {
 	fmt.Fprintf(&o, "Definition array_rule : list string :=\n  %s.\n", ftList(arrayRule))
 	fmt.Fprintf(&o, "Definition object_tail : list string :=\n  %s.\n", ftList(objectTail))
 	fmt.Fprintf(&o, "Definition find_shape : list string :=\n  %s.\n", ftList(findShape))
+	fmt.Fprintf(&o, "Definition build_field_shape : list string :=\n  %s.\n", ftList(buildFieldShape))
+	fmt.Fprintf(&o, "Definition load_array_shape : list string :=\n  %s.\n", ftList(loadArrayShape))
+	fmt.Fprintf(&o, "Definition object_loops_shape : list string :=\n  %s.\n", ftList(objectLoopsShape))
+	fmt.Fprintf(&o, "Definition sysl_type_name_shape : list string :=\n  %s.\n", ftList(syslTypeNameShape))
+	fmt.Fprintf(&o, "Definition type_list_add_shape : list string :=\n  %s.\n", ftList(typeListAddShape))
 	fmt.Fprintf(&o, "Definition sort_props_shape : list string :=\n  %s.\n", ftList(sortPropsShape))
 	fmt.Fprintf(&o, "Definition sort_types_shape : list string :=\n  %s.\n", ftList(sortTypesShape))
 	fmt.Fprintf(&o, "Definition params_shape : list string :=\n  %s.\n", ftList(paramsShape))
